@@ -44,8 +44,9 @@ PUBLISH_OPS = ('rename', 'replace', 'link')
 _CACHE = {}
 
 
-class BodyError(Exception):
-    pass
+class BodyError(BaseException):
+    """what the with-body raises; deliberately NOT an Exception subclass (like KeyboardInterrupt/SystemExit/GeneratorExit): the
+    statement covers every way a body can fail, and code that only handles Exception subclasses must not publish"""
 
 
 def chunks_for(pattern, text):
